@@ -6,7 +6,7 @@
        state of every replica segment);
    (3) linearizability of a history w.r.t. (1), and the replicated variant (the replicas follow the order);
    (4) the executable checker check_history / check_code that uses the agreed log as the witness;
-   (5) run_case: wire decoding. *)
+   (5) run_history_case: wire decoding (run_case, which also serves the layer-model lines, is in Wire.v). *)
 From Coq Require Import List ZArith Bool.
 Import ListNotations.
 Open Scope Z_scope.
@@ -83,8 +83,12 @@ Definition is_write (x : op * Z) : bool := match okind (fst x) with KWrite => tr
 Definition witems (lin : list (op * Z)) : list item :=
   map (fun x => (oid (fst x), snd x)) (filter is_write lin).
 Definition prefix {A} (a b : list A) : Prop := exists c, b = a ++ c.
+(* ... and every acknowledged command has been applied by some replica (is in a recorded replica state) *)
 Definition replicated_linearizable (h : history) : Prop :=
-  exists lin, linearization h lin /\ forall S, In S (hstates h) -> prefix S (witems lin).
+  exists lin, linearization h lin /\
+    (forall S, In S (hstates h) -> prefix S (witems lin)) /\
+    (forall o, In o (hops h) -> okind o = KWrite -> oout o = OOk ->
+               exists S, In S (hstates h) /\ In (oid o) (map fst S)).
 
 (* ---------- executable checker ---------- *)
 Definition kind_eqb (a b : kind) : bool :=
@@ -275,7 +279,7 @@ Fixpoint parse (lines : list (list Z)) (ops : list op) (sts : list (list item)) 
   | _ :: rest => parse rest ops sts
   end.
 
-Definition run_case (ops : list (list Z)) : list (list Z) :=
+Definition run_history_case (ops : list (list Z)) : list (list Z) :=
   let h := parse ops [] [] in
   map (fun l => match l with
                 | 1 :: r => match dec_op r with Some _ => [0] | None => [-1] end
